@@ -208,6 +208,85 @@ pub fn differential(ctx: &Ctx) -> Report {
     })
 }
 
+/// every constructor argument above 15 against a twin constructed with 15, byte for byte on arbitrary streams
+/// (notes, controllers, pitch bend, SysEx with device ids, parameter-number sequences): identical observable
+/// outputs and edge flags after every byte
+pub fn channel_twins(ctx: &Ctx) -> Report {
+    use crate::midi::{self, Op as MOp};
+    use synth_utils::mono_midi_receiver::MonoMidiReceiver;
+    let args: Vec<u8> = if ctx.tier == Tier::Small { vec![16, 126, 200, 255] } else { (16..=255u8).collect() };
+    let per_arg = ctx.budget(1, 12, 400) as usize;
+    par_shards(ctx, args.len(), |k| {
+        let mut rep = Report::new();
+        let c = args[k];
+        let mut r = Rng::derive(ctx.seed, "c20.channel_twins", c as u64);
+        for j in 0..per_arg {
+            let mut h = match j % 4 {
+                0 => midi::gen_sysex(&mut r),
+                1 => midi::gen_rpn_nrpn(&mut r, 15),
+                2 => midi::gen_notes(&mut r, 80, 0.2, false),
+                _ => midi::gen_bytes(&mut r, 300),
+            };
+            // re-target the stream to channel 15: status bytes of the generated channel become channel 15
+            let from = h.channel_arg.min(15);
+            for op in h.ops.iter_mut() {
+                if let MOp::Byte(b) = op {
+                    if (0x80..0xF0).contains(b) && (*b & 0x0F) == from {
+                        *b = (*b & 0xF0) | 0x0F;
+                    } else if *b == from && from != 15 && r.chance(0.5) {
+                        // data bytes equal to the old channel number (e.g. a SysEx device id) follow it
+                        *b = 15;
+                    }
+                }
+            }
+            h.channel_arg = c;
+            let res = guard(|| {
+                let mut a = MonoMidiReceiver::new(c);
+                let mut b = MonoMidiReceiver::new(15);
+                for (i, op) in h.ops.iter().enumerate() {
+                    match op {
+                        MOp::Byte(x) => {
+                            a.parse(*x);
+                            b.parse(*x);
+                        }
+                        MOp::PollRising => {
+                            if a.rising_gate() != b.rising_gate() {
+                                return Some((i, "rising_gate".to_string()));
+                            }
+                        }
+                        MOp::PollFalling => {
+                            if a.falling_gate() != b.falling_gate() {
+                                return Some((i, "falling_gate".to_string()));
+                            }
+                        }
+                        MOp::Priority(_) | MOp::Retrigger(_) | MOp::Repeat(_, _) => {}
+                    }
+                    let (oa, ob) = (midi::read_out(&a), midi::read_out(&b));
+                    if format!("{:?}", oa) != format!("{:?}", ob) {
+                        return Some((i, format!("{:?} vs {:?}", oa, ob)));
+                    }
+                }
+                None
+            });
+            rep.evaluations += 2 * h.ops.len() as u64;
+            rep.count("c20.channel_twin_histories", 1);
+            rep.class(("chtwin", c / 16, j % 4));
+            let bad = match res {
+                Ok(None) => None,
+                Ok(Some((i, what))) => Some((i, what)),
+                Err(p) => Some((0, format!("panicked: {}", p))),
+            };
+            if let Some((i, what)) = bad {
+                let mut t = Text::parse(&h.to_text("C20", i)).unwrap();
+                t.head.retain(|(kk, _)| kk != "module");
+                t.set("module", "c20-channel-twin");
+                rep.violate(Violation { clause: "channel-acts-as-15".into(), signature: "C20:channel-acts-as-15".into(), message: format!("MonoMidiReceiver::new({}) and ::new(15) diverge at op #{} of the same byte stream: {}", c, i, what), replay: t.to_text() });
+            }
+        }
+        rep
+    })
+}
+
 pub fn run(ctx: &Ctx) -> Report {
     let mut rep = Report::new();
     let stage = |name: &str, r: Report, rep: &mut Report, t0: std::time::Instant| {
@@ -223,6 +302,8 @@ pub fn run(ctx: &Ctx) -> Report {
     crate::midi::check_channel_clamp(&mut r, "C20");
     stage("c20.all_u8_notes_and_channels", r, &mut rep, t0);
     let t0 = std::time::Instant::now();
+    stage("c20.channel_twins", channel_twins(ctx), &mut rep, t0);
+    let t0 = std::time::Instant::now();
     stage("c20.differential_envelopes", differential(ctx), &mut rep, t0);
     rep.sample("TimePeriod::from(f32::from_bits(b)) and SustainLevel::from(..) for b = 0x00000000, 0x00000001, ... 0xffffffff".into());
     if ctx.tier != Tier::Small {
@@ -230,6 +311,7 @@ pub fn run(ctx: &Ctx) -> Report {
         rep.floor("c20.note_arguments", 256);
         rep.floor("midi.channel_args_checked", 256);
         rep.floor("c20.differential_envelopes", 500);
+        rep.floor("c20.channel_twin_histories", 2000);
     }
     rep
 }
@@ -280,6 +362,42 @@ pub fn replay(t: &Text, rep: &mut Report) -> Result<Option<Violation>, String> {
             Ok(None)
         }
         "midi" => crate::midi::replay(t, "C20", rep),
+        "c20-channel-twin" => {
+            use crate::midi::{self, Op as MOp};
+            use synth_utils::mono_midi_receiver::MonoMidiReceiver;
+            let h = midi::History::parse(t)?;
+            let mut a = MonoMidiReceiver::new(h.channel_arg);
+            let mut b = MonoMidiReceiver::new(15);
+            for (i, op) in h.ops.iter().enumerate() {
+                let mut diff = None;
+                match op {
+                    MOp::Byte(x) => {
+                        a.parse(*x);
+                        b.parse(*x);
+                    }
+                    MOp::PollRising => {
+                        if a.rising_gate() != b.rising_gate() {
+                            diff = Some("rising_gate".to_string());
+                        }
+                    }
+                    MOp::PollFalling => {
+                        if a.falling_gate() != b.falling_gate() {
+                            diff = Some("falling_gate".to_string());
+                        }
+                    }
+                    _ => {}
+                }
+                rep.evaluations += 2;
+                let (oa, ob) = (midi::read_out(&a), midi::read_out(&b));
+                if diff.is_none() && format!("{:?}", oa) != format!("{:?}", ob) {
+                    diff = Some(format!("{:?} vs {:?}", oa, ob));
+                }
+                if let Some(d) = diff {
+                    return Ok(Some(Violation { clause: "channel-acts-as-15".into(), signature: "C20:channel-acts-as-15".into(), message: format!("new({}) and new(15) diverge at op #{}: {}", h.channel_arg, i, d), replay: t.to_text() }));
+                }
+            }
+            Ok(None)
+        }
         m => Err(format!("unknown C20 replay module {}", m)),
     }
 }
